@@ -40,7 +40,7 @@ def lit(rng, body=None, q=None):
 def rel_expr(rng):
     """an expression without top-level comma problems that contains a relational operator"""
     return rng.choice(["merge(2,3,k<n)", "merge(1,2,k>n)", "merge(2,4,k<n.and.n>k)", "size([1,2])", "n", "2*k+1",
-                       "merge(3,4,k<=n)", "max(k,n)"])
+                       "merge(3,4,k<=n)", "max(k,n)", 'len("a<b")', "len('x  y&')", 'len("C:\\a\\b\\c")'])
 
 
 def nocomma_rel(rng):
@@ -83,7 +83,8 @@ def init_expr(rng):
     if r < 0.7:
         return f"merge({lit(rng)}, {lit(rng)}, k<n)", True
     if r < 0.85:
-        return rng.choice(["merge(1,2,k<n)", "merge(1.0, 2.0, k > n)", "[1,2,3]", "2*k + 1", "iand(k,n)"]), False
+        return rng.choice(["merge(1,2,k<n)", "merge(1.0, 2.0, k > n)", "[1,2,3]", "2*k + 1", "iand(k,n)",
+                           "1 <= 2", "k == n", "k/=n", "k >= n .and. n<=k"]), False
     return f"[{lit(rng)},{lit(rng)}]", True
 
 
